@@ -1759,6 +1759,13 @@ def _extract_call_argument(
             return text
         return None
 
+    if any(isinstance(arg, ast.Starred) for arg in call_expr.args) or any(
+        kw.arg is None for kw in call_expr.keywords
+    ):
+        # the arguments cannot be told apart at transpile time; looking them up by
+        # position / name would silently fall back to the defaults
+        raise ValueError("argument unpacking (*args / **kwargs) is not supported")
+
     selected: Optional[ast.AST] = None
     if keyword is not None:
         for kw in call_expr.keywords:
